@@ -4,6 +4,8 @@ CONSTANTS
     Loop = "copy"
     Family = "all"
     Tier = "quick"
+    NanRule = "notconverged"
+    FluxRule = "segment"
     Reporter = "contract"
     EmitOn = TRUE
 INIT Init
@@ -13,5 +15,7 @@ INVARIANT AccumFails
 INVARIANT RelaxConverges
 INVARIANT GridIsOK
 INVARIANT Plumbing
+INVARIANT UndefinedIsNotConvergence
+INVARIANT FluxesBalance
 INVARIANT Emit
 CHECK_DEADLOCK FALSE
